@@ -1,0 +1,46 @@
+//go:build verif
+// +build verif
+
+package osm
+
+// This file is only compiled with the "verif" build tag. It provides the
+// yield points and in-lock record points that an external checker uses to
+// drive the extraction workers through a chosen interleaving and to record
+// what they did. Both variables are nil unless a checker installs them, in
+// which case the calls below do nothing.
+
+// VerifGate is called at yield points that lie outside every lock: on entry
+// to processNode/Way/Relation ("got"), before each later critical section
+// ("keep", "store", "dep", "needw") and when the object is finished ("done").
+// It may block; because no lock is held a parked worker cannot starve others.
+var VerifGate func(point string, kind byte, id int64)
+
+// VerifRec is called inside critical sections (lock still held) after the
+// protected read or write has happened.
+var VerifRec func(ev string, kind byte, id int64, has, need bool)
+
+func verifGate(point string, kind byte, id int64) {
+	if f := VerifGate; f != nil {
+		f(point, kind, id)
+	}
+}
+
+// verifEnter is used as `defer verifEnter(kind, id)()`.
+func verifEnter(kind byte, id int64) func() {
+	verifGate("got", kind, id)
+	return func() { verifGate("done", kind, id) }
+}
+
+func verifRec(ev string, kind byte, id int64, has, need bool) {
+	if f := VerifRec; f != nil {
+		f(ev, kind, id, has, need)
+	}
+}
+
+// verifRecHN is deferred inside hasNeedX after the read lock has been taken,
+// so it runs before that lock is released and sees the named results.
+func verifRecHN(kind byte, id int64, has, need *bool) {
+	if f := VerifRec; f != nil {
+		f("hn", kind, id, *has, *need)
+	}
+}
